@@ -63,6 +63,8 @@ class Engine:
         self.after_call = {}  # (caller qualname, callee name) -> ghost statement fn(c, frame, result)
         self.lazy_ext_kinds = set()  # external kinds whose methods only record their (lazily optional) arguments
         self.split_hooks = {}  # function qualname -> model of str.split inside that function
+        self.tier = "quick"
+        self.cut_continue = {}  # cut_calls entries that only assert the entry state and then go on with the callee's contract
         self.cut_calls = {}  # (caller qualname, callee qualname) -> extra requires; the path ends after the call's requires
 
     # ------------------------------------------------------------------ registry
@@ -129,7 +131,10 @@ class Engine:
                 c.prove(f"call:{fn.qual.split('.')[-1]}.requires", c.proving(ct.requires, c, bound), node)
                 c.prove(f"call:{fn.qual.split('.')[-1]}.entry-state", c.proving(cut, c, bound), node)
                 self.cut_reached = getattr(self, "cut_reached", 0) + 1
-                raise PathEnd()
+                cont = self.cut_continue.get((c.frames[-1].qual, fn.qual))
+                if cont is None or not cont(self, c):
+                    raise PathEnd()
+                return self.apply(c, ct, bound, node)
             if ct is not None and key != self.current_target:
                 bound = I.bind_args(c, fn.node, args, dict(kwargs), lambda d: self._default(c, d, fn.frame), fn.qual)
                 bound["$closure"] = fn.frame
